@@ -2,6 +2,7 @@
 import BRV.Model.RepoOps
 import BRV.Model.Locator
 import BRV.Model.MainNet
+import BRV.Model.ProofVerify
 import BRV.Driver.Util
 
 open BRV BRV.Drv BRV.Repo
@@ -110,6 +111,63 @@ def effectiveEvents (s0 : Store) (evs : List StoreEv) : List StoreEv :=
       if (List.lookup f acc.1.main).isSome || (List.lookup f acc.1.mainV0).isSome then (acc.1.apply e, acc.2 ++ [e]) else acc
     | _ => (acc.1.apply e, acc.2 ++ [e])) (s0, [])).2
 
+/-- the honest proof of transaction `ti` of the block header `hd` commits to, built with the model
+    of the dependency's streaming tree. -/
+def honestProof (hd : Hdr) (n ti : Nat) : Option Merkle.Proof :=
+  let leaves := (List.range n).map fun i => Merkle.H.leaf (hd.id * 1000000 + i)
+  let t := leaves.zipIdx.foldl (fun (t : Option Merkle.Tree) (x, i) =>
+    match t with
+    | none => none
+    | some t => (if i = ti then t.addMerkleProof x else t).addHash x) (some (Merkle.newTree true))
+  match t.bind Merkle.Tree.finalize with
+  | some (_, [p]) => some p
+  | _ => none
+
+def showVErr : VErr → String
+  | .unknown => "err:unknown" | .notAvailable => "err:notavail" | .read => "err:other"
+  | .notVerifiable => "err:notverifiable" | .badIndex => "err:badindex" | .wrongRoot => "err:root"
+
+def proofOp (s : DState) (rest : List String) : String :=
+  match kvNat rest "block", kvNat rest "n", kvNat rest "tx" with
+  | some bid, some n, some ti =>
+    match List.lookup bid s.hdrs with
+    | none => "bad-op"
+    | some hd =>
+      if ti ≥ n then "bad-op" else
+      match honestProof hd n ti with
+      | none => "bad-op"
+      | some core =>
+        let idx : Int := match core.index with | some i => (i : Int) | none => -1
+        let byHash := kv rest "form" == some "hash"
+        let p0 : MProof := { index := idx, core := core, header := if byHash then none else some hd,
+                             blockHash := if byHash then some hd.id else none }
+        let mu := (kv rest "mut").getD "none"
+        let p : Option MProof :=
+          if mu == "none" then some p0
+          else if mu == "txid" then some { p0 with core := { core with txid := Merkle.H.leaf 999999998 } }
+          else if mu.startsWith "path:" then
+            match (mu.drop 5).toString.toNat? with
+            | some k => some { p0 with core := { core with path := if k < core.path.length then core.path.set k (Merkle.H.leaf 999999997) else core.path } }
+            | none => none
+          else if mu.startsWith "index:" then
+            match (mu.drop 6).toString.toInt? with
+            | some d => some { p0 with index := idx + d }
+            | none => none
+          else if mu.startsWith "other:" then
+            match ((mu.drop 6).toString.toNat?).bind (fun o => List.lookup o s.hdrs) with
+            | some oh => some { p0 with header := if byHash then none else some oh, blockHash := if byHash then some oh.id else none }
+            | none => none
+          else if mu == "unknownhash" then some { p0 with header := none, blockHash := some 777777 }
+          else if mu == "noblock" then some { p0 with header := none, blockHash := none }
+          else none
+        match p with
+        | none => "bad-op"
+        | some p =>
+          match verifyMerkleProof s.repo mrOfBlock p with
+          | .ok (h, f) => s!"r=ok h={h} longest={if f then 1 else 0}"
+          | .error e => s!"r={showVErr e}"
+  | _, _, _ => "bad-op"
+
 def onOff (ws : List String) (k : String) (dflt : Bool) : Bool :=
   match kv ws k with
   | some "on" => true
@@ -211,6 +269,7 @@ def stepLine (s0 : DState) (line : String) : DState × String :=
     match (kvNat rest "id").bind (fun i => List.lookup i s.hdrs) with
     | none => (s, "bad-op")
     | some h => (s, s!"v={showVerdict (verifyHeader s.repo h)}")
+  | "proof" :: rest => (s, proofOp s rest)
   | "vloc" :: _ => (s, s!"loc={showLoc (verifyOnlyLocator s.repo)}")
   | _ => (s, "bad-op")
 
